@@ -176,12 +176,26 @@ VM_ALL = ["literal", "get_local", "set_local", "get_global", "set_global", "drop
           "get_field", "loop_stops_at_failure", "loop_runs_to_end", "routing"]
 
 
+VMK = lambda: SmtTask("vm_kernels_mir", "vm_kernels.py", quick=True, timeout=1200)
+VMK_FUNCS = ["interpreter::{dispatch_array_method,dispatch_array_get_method,dispatch_array_set_method,eval_call_function} and everything they call in "
+             "/repo (ArrayInstance::{get_element,set_element}, Pointer::as_usize, ConstantPool::get, GlobalFunctions::get, OperandStack::pop_sequence "
+             "with its closures, Size::make_vector, Frame::from, FrameStack::push, InstructionPointer::{bump,get,set}, Code::next): MIR/z3"]
+VMK_BOUNDS = ["MIR/z3: arrays of length 0-2 with 0-3 arguments of any kind; function calls with 0-2 parameters, 0 or 2 locals, operand stack of "
+              "parameters(+1) values, call-site argument count 0-4; every Pointer, constant index, address and method name symbolic"]
+VMK_STUBS = ["MIR/z3 engine (smt/mirx.py): core/alloc functions are modelled from their documented semantics — Vec/slice (len, push, pop, get, "
+             "index, first/last, reverse, iter, into_iter), iterator adapters over concrete lengths (map, chain, rev, take, repeat, collect into "
+             "Vec and Result<Vec>), Option/Result combinators (?, map, unwrap, with_context), derived PartialEq/PartialOrd, HashMap/IndexMap "
+             "lookups with concrete keys; message and anyhow::Error construction is opaque"]
+
+
 def vm_prop(pid, quick, extra_all=()):
     p = Prop(pid)
     for h in VM_ALL:
         if h in quick or h in extra_all:
             p.add("h_vm::vm_" + h, quick=h in quick, timeout=900, drives=["eval_" + h], bound="one step of the kernel from every state of the shape")
-    p.functions, p.bounds, p.outside, p.not_covered = VM_FUNCS, VM_BOUNDS, VM_OUTSIDE, VM_NOT_COVERED
+    p.functions, p.bounds, p.outside, p.not_covered = VM_FUNCS + VMK_FUNCS, VM_BOUNDS + VMK_BOUNDS, VM_OUTSIDE, VM_NOT_COVERED
+    p.stubs = p.stubs + VMK_STUBS
+    p.smt_tasks.append(VMK())
     return p
 
 
@@ -297,7 +311,9 @@ def c10():
         p.add("h_c09::c09_int_%s_sym_r9" % op, quick=(op == "div"), timeout=600, bound="zero divisor / MIN / -1: Rust's division panic or Err")
     p.add("h_c09::c09_unknown_int_len2", quick=False, timeout=900)
     p.smt_tasks.append(SmtTask("c09_dispatch_mir", "c09_dispatch.py", quick=True, timeout=900))
-    p.functions = VM_FUNCS + PRINT_FUNCS
+    p.smt_tasks.append(VMK())
+    p.stubs = p.stubs + VMK_STUBS
+    p.functions = VM_FUNCS + VMK_FUNCS + PRINT_FUNCS
     p.bounds = VM_BOUNDS + PRINT_BOUNDS
     p.outside = VM_OUTSIDE + ["process exit status and stderr/stdout separation (main.rs), lexer/parser rejections",
                               "FML call depth 10^5 and source nesting depth 200 (CBMC cannot unwind that far)"]
@@ -311,8 +327,10 @@ def c13():
         p.add("h_vm::vm_" + h, quick=q, timeout=900, bound="operands popped exactly once and in the pushed order")
     for sq, fk in (("la", "local"), ("l", "top")):
         p.add("h_compile::scope_%s_%s" % (sq, fk), quick=True, timeout=1500, bound="value compiled before the store")
-    p.functions = VM_FUNCS + COMPILE_FUNCS
-    p.bounds = VM_BOUNDS + COMPILE_BOUNDS
+    p.smt_tasks.append(VMK())
+    p.stubs = p.stubs + VMK_STUBS
+    p.functions = VM_FUNCS + VMK_FUNCS + COMPILE_FUNCS
+    p.bounds = VM_BOUNDS + VMK_BOUNDS + COMPILE_BOUNDS
     p.outside = VM_OUTSIDE + COMPILE_OUTSIDE
     p.not_covered = VM_NOT_COVERED + COMPILE_NOT_COVERED + PRINT_NOT_COVERED + [
         "compiler-side order of receiver / arguments / object members / array size and initializer / loop condition (arms with several children)",
@@ -325,8 +343,10 @@ def c14():
     for h, q in (("get_field", True),):
         p.add("h_vm::vm_" + h, quick=q, timeout=900, bound="fields are read and updated in place through a heap reference")
     p.smt_tasks.append(SmtTask("c09_dispatch_mir", "c09_dispatch.py", quick=True, timeout=900))
-    p.functions = VM_FUNCS
-    p.bounds = VM_BOUNDS
+    p.smt_tasks.append(VMK())
+    p.stubs = p.stubs + VMK_STUBS
+    p.functions = VM_FUNCS + VMK_FUNCS
+    p.bounds = VM_BOUNDS + VMK_BOUNDS
     p.outside = VM_OUTSIDE
     p.not_covered = VM_NOT_COVERED + ["parent-chain dispatch and overriding (needs about 20 GB per chain shape under CBMC)"]
     return p
